@@ -48,6 +48,42 @@ Theorem C15_model_ok :
 Proof. exact model_ok_answers. Qed.
 Print Assumptions C15_model_ok.
 
+(** First-appearance characterisation (what the harness's numpy reference evaluates for indices and ranges
+    too large for a Coq literal): the value at the raw position [p] of a first appearance is the sub seed of the
+    index "number of distinct values among the first [p] draws". *)
+Theorem C15_first_appearance :
+  forall s p v, nth_error s p = Some v -> ~ In v (firstn p s) -> spec s (length (dedup (firstn p s))) = Some v.
+Proof. exact spec_first_appearance. Qed.
+Print Assumptions C15_first_appearance.
+
+(** On a duplicate-free prefix of the draw stream the sub seed of index [i] is the raw draw [i] ... *)
+Theorem C15_nodup_prefix : forall s i, NoDup (firstn (S i) s) -> spec s i = nth_error s i.
+Proof. exact spec_nodup_prefix. Qed.
+Print Assumptions C15_nodup_prefix.
+
+(** ... and at the first repeated raw draw [d] the raw draw is NOT the sub seed of index [d]: handing out raw
+    draws aliases two indices exactly there, for every range (2**31 included). *)
+Theorem C15_raw_draw_wrong_at_collision :
+  forall s d x, NoDup (firstn d s) -> nth_error s d = Some x -> In x (firstn d s) -> spec s d <> Some x.
+Proof. exact raw_draw_wrong_at_collision. Qed.
+Print Assumptions C15_raw_draw_wrong_at_collision.
+
+(** The reference answers accepted by the correspondence ([ref_ok], part of [agree]) are the [spec] values. *)
+Theorem C15_ref_ok_sound :
+  forall s high reqs r, ref_ok s high reqs r = true ->
+    Forall2 (fun (rq : nat * bool) o => match o with
+                                        | None => (high <= N.of_nat (fst rq))%N
+                                        | Some v => (N.of_nat (fst rq) < high)%N /\ spec s (fst rq) = Some v
+                                        end) reqs r.
+Proof. exact ref_ok_sound. Qed.
+Print Assumptions C15_ref_ok_sound.
+
+(** Non-vacuity of the collision theorem: draw 3 repeats draw 1; index 3 gets the next fresh value. *)
+Example C15_collision_example :
+  let s := [5;7;2;7;9]%N in
+  NoDup (firstn 3 s) /\ nth_error s 3 = Some 7%N /\ In 7%N (firstn 3 s) /\ spec s 3 = Some 9%N /\ spec s 1 = Some 7%N.
+Proof. vm_compute. repeat split; try reflexivity; [repeat constructor; simpl; intuition discriminate | right; left; reflexivity]. Qed.
+
 (** Non-vacuity: a stream with forced collisions, a jumping/decreasing/repeated history. *)
 Example C15_example :
   map view_of (run_history 20 [3;3;1;3;0;1;2;2]%N 4%N None [(2,true);(0,true);(3,true);(3,false);(1,true);(4,true)])
